@@ -37,6 +37,7 @@ import (
 	"time"
 
 	gcommon "github.com/ethereum/go-ethereum/common"
+	gcrypto "github.com/ethereum/go-ethereum/crypto"
 	grawdb "github.com/ethereum/go-ethereum/core/rawdb"
 	gstate "github.com/ethereum/go-ethereum/core/state"
 	gvm "github.com/ethereum/go-ethereum/core/vm"
@@ -144,6 +145,20 @@ type world struct {
 	Gas       uint64
 	Value     uint64
 	MainSrc   string
+	// Collide pre-populates (nonce 1, no code) the address a creation is about to use, so that the creation collides:
+	// 1 = the address of the top-level creation by the origin, 2 = the address of U0's first CREATE (U0 has nonce 1).
+	Collide int
+}
+
+// collideAddr is derived with go-ethereum's crypto package (independent of the code under test).
+func (w *world) collideAddr() (addr, bool) {
+	switch w.Collide {
+	case 1:
+		return addr(gcrypto.CreateAddress(gcommon.Address(originAddr), w.OriginNon)), true
+	case 2:
+		return addr(gcrypto.CreateAddress(gcommon.Address(uAddr(0)), 1)), true
+	}
+	return addr{}, false
 }
 
 func (w *world) mainCode() []byte {
@@ -158,6 +173,9 @@ func (w *world) text() string {
 	fmt.Fprintf(&b, "galaxias=%v height=%d gas=%d value=%d create=%v origin(bal=%d nonce=%d) input=%x", w.Galaxias, w.Height, w.Gas, w.Value, w.Create, w.OriginBal, w.OriginNon, w.Input)
 	if w.Create {
 		fmt.Fprintf(&b, " init[%s]=%x", w.MainSrc, w.InitCode)
+	}
+	if a, ok := w.collideAddr(); ok {
+		fmt.Fprintf(&b, " occupied=%x", a)
 	}
 	for i := range w.U {
 		a := &w.U[i]
@@ -211,8 +229,12 @@ type trace struct {
 type peeker interface{ peek(i int) word }
 
 func newTrace(w *world) *trace {
-	return &trace{topCreate: w.Create, galaxias: w.Galaxias, errKinds: map[string]int{}, addrs: map[addr]struct{}{},
+	tr := &trace{topCreate: w.Create, galaxias: w.Galaxias, errKinds: map[string]int{}, addrs: map[addr]struct{}{},
 		slots: map[addr]map[word]struct{}{}, lastOp: make([]byte, 8)}
+	if a, ok := w.collideAddr(); ok {
+		tr.addrs[a] = struct{}{}
+	}
+	return tr
 }
 
 const (
@@ -521,6 +543,9 @@ func kBuildState(w *world) *state.StateDB {
 			}
 		}
 	}
+	if a, ok := w.collideAddr(); ok {
+		st.SetNonce(common.Address(a), 1)
+	}
 	st.SetBalance(common.Address(originAddr), new(big.Int).SetUint64(w.OriginBal))
 	st.SetNonce(common.Address(originAddr), w.OriginNon)
 	st.Finalise(true)
@@ -663,6 +688,9 @@ func gBuildState(w *world) *gstate.StateDB {
 				st.SetState(ad, gcommon.Hash(slotKey(k)), gcommon.Hash(v))
 			}
 		}
+	}
+	if a, ok := w.collideAddr(); ok {
+		st.SetNonce(gcommon.Address(a), 1)
 	}
 	st.SetBalance(gcommon.Address(originAddr), new(big.Int).SetUint64(w.OriginBal))
 	st.SetNonce(gcommon.Address(originAddr), w.OriginNon)
@@ -873,9 +901,10 @@ func firstDiff(a, b []snapLine) (field, la, lb string, differ bool) {
 // ---------------------------------------------------------------- oracles
 
 // checkWorld runs robustness + determinism + the top-frame structural clause (KVM alone) and, if diff is true, the
-// differential against the reference VM. It returns both traced outcomes (nil, nil when the case hit a listed known
-// finding and was set aside) for the callers that add structural expectations.
-func checkWorld(t ev.TB, w *world, diff bool, classes *[]string) (*kOutcome, *gOutcome) {
+// differential against the reference VM. mid, if given, is called with the traced KVM outcome after the KVM-only clauses
+// and before the differential. It returns both traced outcomes (nil, nil when the case hit a listed known finding and was
+// set aside).
+func checkWorld(t ev.TB, w *world, diff bool, classes *[]string, mid func(k *kOutcome)) (*kOutcome, *gOutcome) {
 	ct := w.text
 	var k1, k2 *kOutcome
 	var g *gOutcome
@@ -931,6 +960,9 @@ func checkWorld(t ev.TB, w *world, diff bool, classes *[]string) (*kOutcome, *gO
 		}
 	}
 	*classes = append(*classes, "kvm-err:"+orOK(kErrKind(k1.err)))
+	if mid != nil {
+		mid(k1) // spec-derived structural expectations of the directed generators, decided before the reference is consulted
+	}
 	var r1, r2 common.Hash
 	roots := func() bool {
 		ev.Guard(t, ct, func() { r1 = k1.st.IntermediateRoot(true); r2 = k2.st.IntermediateRoot(true) })
@@ -1029,7 +1061,10 @@ func TestKVMPrograms(t *testing.T) {
 	rapid.Check(t, func(t *rapid.T) {
 		w := genWorld(t)
 		classes := []string{"src:" + w.MainSrc, "gas:" + gasClass(w.Gas), fmt.Sprintf("galaxias:%v", w.Galaxias), fmt.Sprintf("create:%v", w.Create)}
-		k, g := checkWorld(t, w, true, &classes)
+		if w.Collide != 0 {
+			classes = append(classes, fmt.Sprintf("occupied-create-address:%d", w.Collide))
+		}
+		k, g := checkWorld(t, w, true, &classes, nil)
 		if k == nil {
 			ev.Case(false, w.text(), append(classes, "set-aside-known")...)
 			return
